@@ -33,12 +33,15 @@ KINDS = {
     'Ax': (True, (), 'argexc'),       # maps, delegate: ArgumentException
     'L': (True, (0,), 'ok'),          # first positional argument lazy
     'K': (True, ('k',), 'ok'),        # keyword argument k lazy
+    'Ad': (True, (), 'ok'),           # as A, plus a defaulted parameter the
+    #                                   call does not bind
 }
 SPEC = ('first', 'second', 'none')   # which of two candidates is narrower
 # classes the situations give an answer about; an isinstance test against
 # anything else is answered 'no' and recorded: the verdicts are then not
 # used to overrule a structural rule
-KNOWN_CLASSES = {'LazyParameterType', 'Expression', 'Constant',
+KNOWN_CLASSES = {'LazyParameterType', 'HiddenParameterType', 'Expression',
+                 'Constant',
                  'MappingRuleExpression', 'KeywordConstant', 'tuple', 'list',
                  'dict', 'str', 'int', 'set', 'frozenset'}
 UNMODELLED = set()
@@ -164,11 +167,15 @@ def run_situation(repo, sit, order=None):
             objs = [objs[i] for i in order]
         layers.append(objs)
 
+    made = {}
+
     def mapping_of(cid, call_args, call_kwargs):
         c, k = cands[cid]
         maps, lazy, deleg = KINDS[k]
         if not maps:
             return None
+        if cid in made:
+            return made[cid]
         npos = len(call_args)
         shift = 1 if sit.method else 0
         pos = []
@@ -189,7 +196,17 @@ def run_situation(repo, sit, order=None):
                                  position=None,
                                  default=absint.Sym('no-default'),
                                  value_type=vt)
-        return (tuple(pos), kw)
+        params = {p.attrs['name']: p for p in pos}
+        params.update({p.attrs['name']: p for p in kw.values()})
+        if k == 'Ad':
+            vt = _type_obj('%d.%d.extra' % cid)
+            vt.attrs['lazy'] = False
+            params['extra'] = absint.Obj(
+                'param', name='extra', alias=None, position=len(pos),
+                default=0, value_type=vt)
+        c.attrs['parameters'] = params
+        made[cid] = (tuple(pos), kw)
+        return made[cid]
 
     def spec_answer(tid_self, other):
         """self.is_specialization_of(other): parameter types of the first
@@ -251,6 +268,8 @@ def run_situation(repo, sit, order=None):
                 UNMODELLED.add(nm)
         if isinstance(value, absint.Obj):
             if 'lazy' in value.attrs:      # a parameter type
+                if 'HiddenParameterType' in names:
+                    return False
                 return 'LazyParameterType' in names and value.attrs['lazy']
             kind = value.attrs.get('kind')
             if kind == 'expr':
